@@ -39,7 +39,9 @@ def _rmap(rng, hi):
     return {"shape": [m, n], "seed": rng.getrandbits(32),
             "vals": rng.choice(["mixed", "mixed", "pos", "neg", "const", "zero", "tiny", "huge", "pos_big", "neg_big"]),
             "nan": rng.choice(["none", "none", "scatter", "rows", "all", "edge"]),
-            "mag": 10 ** rng.uniform(-2, 4)}
+            "mag": 10 ** rng.uniform(-2, 4),
+            "dtype": rng.choice(["f64", "f64", "f64", "f64", "f32"]),
+            "layout": rng.choice(["c", "c", "c", "c", "c", "fortran", "transposed"])}
 
 
 def _rwhere(rng):
@@ -68,6 +70,14 @@ def generate(rng, tier):
                 op["cv"] = {"typ": rng.choice(["SUR", "WFR", "wfr"]), "nnb": rng.random() < 0.5}
             if fmt == "ifg" and rng.random() < 0.05:
                 op["dx"] = 0.0          # the library's "no lateral calibration" marker
+            prev = [j for j, o in enumerate(ops) if o["op"] == "write" and "reuse" not in o]
+            if prev and rng.random() < 0.3:
+                # the caller saves the very same array / Interferogram object once more
+                j = rng.choice(prev)
+                op["reuse"] = j
+                op["map"], op["dx"], op["wvl"] = ops[j]["map"], ops[j]["dx"], ops[j]["wvl"]
+                if (op["fmt"] == "codev") != (ops[j]["fmt"] == "codev"):
+                    op["fmt"] = ops[j]["fmt"]          # value ranges are chosen per format family
             if cfg["faults"] and rng.random() < 0.35:
                 kind = rng.choice(["enospc", "crash", "crash", "eio_close"])
                 op["fault"] = {"kind": kind, "where": _rwhere(rng), "survive_u": rng.random()}
@@ -162,6 +172,13 @@ def build_map(np, spec, wvl, fmt):
         z[:, -1] = np.nan
     elif nk == "all":
         z[:] = np.nan
+    if spec.get("dtype") == "f32":
+        z = z.astype(np.float32)
+    lay = spec.get("layout", "c")
+    if lay == "fortran":
+        z = np.asfortranarray(z)
+    elif lay == "transposed":
+        z = np.ascontiguousarray(z.T).T       # same samples, a transposed view of other memory
     return z
 
 
@@ -182,22 +199,28 @@ def _setup():
     return w
 
 
-def _write(w, fmt, path, z, dx, wvl, cv=None):
-    """Call the real writer.  Returns None or the exception it raised."""
+def _write(w, fmt, path, z, dx, wvl, cv=None, holder=None):
+    """Call the real writer with the caller's own array object (no defensive copy:
+    that is what user code does).  `holder` keeps the caller's Interferogram."""
     from prysm.interferogram import Interferogram
     pio = w.pio
     if fmt == "zygo_path":
-        pio.write_zygo_dat(path, z.copy(), dx, wavelength=wvl)
+        pio.write_zygo_dat(path, z, dx, wavelength=wvl)
     elif fmt == "zygo_file":
         f = w.disk.open(path, "wb")
-        pio.write_zygo_dat(f, z.copy(), dx, wavelength=wvl)
+        pio.write_zygo_dat(f, z, dx, wavelength=wvl)
     elif fmt == "ifg":
-        Interferogram(z.copy(), dx=dx, wavelength=wvl).save_zygo_dat(path)
+        if holder is not None:
+            if holder.get("ifg") is None:
+                holder["ifg"] = Interferogram(z, dx=dx, wavelength=wvl)
+            holder["ifg"].save_zygo_dat(path)
+        else:
+            Interferogram(z, dx=dx, wavelength=wvl).save_zygo_dat(path)
     elif fmt == "codev":
         if cv:
-            pio.write_codev_gridint(z.copy(), path, typ=cv["typ"], nnb=cv["nnb"])
+            pio.write_codev_gridint(z, path, typ=cv["typ"], nnb=cv["nnb"])
         else:
-            pio.write_codev_gridint(z.copy(), path)
+            pio.write_codev_gridint(z, path)
     else:
         raise ValueError(fmt)
 
@@ -397,6 +420,8 @@ def _judge(w, entry, spans, k, res, step_i, viol, bump, probes):
     region = _region(entry, spans, k)
     step = _step(entry)
     tolv = step * (1 + 1e-9) + np.abs(np.nan_to_num(z)) * (2.0 ** -22 if fmtc == "zygo" else 1e-12)
+    if entry.get("f32"):
+        tolv = tolv + np.abs(np.nan_to_num(z)) * 2.0 ** -21      # the input's own single-precision rounding
 
     if all_complete:
         # ---- complete-file contract (a cut that only removed trailing white space is complete too)
@@ -491,6 +516,7 @@ def execute(plan):
             modobj.datetime = clock
     w.layouts = {}
     model = {}
+    objs = {}
     events, violations = [], []
     probes = {}
     trans = set()
@@ -520,8 +546,16 @@ def execute(plan):
             ev["t"] = math.floor(clock.now_s)
         elif k == "write":
             fmt, path = op["fmt"], op["path"]
-            z = build_map(np, op["map"], op["wvl"], fmt)
-            ev.update({"fmt": fmt, "path": path, "shape": list(z.shape)})
+            if "reuse" in op and op["reuse"] in objs:
+                holder = objs[op["reuse"]]
+                bump(probes, "same_object_saved_again")
+            else:
+                z0 = build_map(np, op["map"], op["wvl"], fmt)
+                holder = {"z": z0, "pristine": z0.copy(), "ifg": None}
+                objs[i] = holder
+            z = holder["z"]
+            zfix = holder["pristine"]
+            ev.update({"fmt": fmt, "path": path, "shape": list(zfix.shape)})
             fault = op.get("fault")
             # fault-free dry run to a scratch path: the complete byte image of this write
             full = None
@@ -529,7 +563,7 @@ def execute(plan):
             try:
                 with warnings.catch_warnings():
                     warnings.simplefilter("ignore")
-                    _write(w, "zygo_path" if fmt in ("zygo_file",) else fmt, "/sim/.dry", z, op["dx"], op["wvl"], op.get("cv"))
+                    _write(w, "zygo_path" if fmt in ("zygo_file",) else fmt, "/sim/.dry", zfix.copy(), op["dx"], op["wvl"], op.get("cv"))
                 full = w.disk.files.pop("/sim/.dry")
             except Exception as e:
                 dry_exc = e
@@ -537,14 +571,15 @@ def execute(plan):
             if full is None:
                 # the writer cannot write this map at all
                 ev["out"] = "writer-raised:" + type(dry_exc).__name__
-                if not bool(np.all(np.isnan(z))):
+                if not bool(np.all(np.isnan(zfix))):
                     viol("write-raised", i, "codev" if fmt == "codev" else "zygo", "none",
                          exc=type(dry_exc).__name__, msg=str(dry_exc)[:160], vals=op["map"]["vals"], nan=op["map"]["nan"])
                 model.pop(path, None)
                 w.disk.files.pop(path, None)
                 events.append(ev)
                 continue
-            entry = {"fmt": fmt, "path": path, "map": z, "dx": op["dx"], "wvl": op["wvl"], "full": full}
+            entry = {"fmt": fmt, "path": path, "map": np.array(zfix, dtype=np.float64), "dx": op["dx"], "wvl": op["wvl"],
+                     "full": full, "f32": zfix.dtype == np.float32}
             with warnings.catch_warnings():
                 warnings.simplefilter("ignore")
                 entry["layout"] = _layout(w, fmt, z.shape, op["dx"], op["wvl"])
@@ -561,13 +596,21 @@ def execute(plan):
             try:
                 with warnings.catch_warnings():
                     warnings.simplefilter("ignore")
-                    _write(w, fmt, path, z, op["dx"], op["wvl"], op.get("cv"))
+                    _write(w, fmt, path, z, op["dx"], op["wvl"], op.get("cv"), holder)
             except SimCrash:
                 out = "crash"
             except Exception as e:
                 out = "raised:" + type(e).__name__
             w.disk.armed.pop(path, None)
             ev["out"] = out
+            # the caller's array must still hold what was handed in
+            same = z.shape == zfix.shape and z.dtype == zfix.dtype and bool(
+                np.all((z == zfix) | (np.isnan(z) & np.isnan(zfix))))
+            if not same:
+                viol("input-mutated", i, "codev" if fmt == "codev" else "zygo", "none",
+                     what="the height map passed to the writer was modified in place")
+                holder["z"] = zfix.copy()
+                holder["ifg"] = None
             now = w.disk.files.get(path)
             ev["len"] = -1 if now is None else len(now)
             ev["fp"] = core.fp_bytes(now or b"")
@@ -606,10 +649,14 @@ def execute(plan):
                 bump(probes, "overwrite_or_multi_path")
             if fmt == "zygo_file":
                 bump(probes, "filelike_branch")
-            if bool(np.all(np.isnan(z))):
+            if bool(np.all(np.isnan(zfix))):
                 bump(probes, "all_nan_map")
-            if 1 in z.shape:
+            if 1 in zfix.shape:
                 bump(probes, "one_by_n")
+            if zfix.dtype == np.float32:
+                bump(probes, "float32_map")
+            if not zfix.flags["C_CONTIGUOUS"]:
+                bump(probes, "non_c_contiguous_map")
         elif k in ("read", "cut", "cutscan"):
             path = op["path"]
             entry = model.get(path)
